@@ -14,15 +14,23 @@
 //     "raw"       – anything else
 //     "unknown"   – a header-writing method this translator has no rule for
 //  2. the bytes sanitizeHeaderValue replaces and what it replaces them with.
+//  4. indexSites: every function of helpers.go, ctx.go, path.go and binder/*.go (tests excluded)
+//     that contains an index expression `x[i]` or a slice expression `x[i:j]`, with the source text
+//     of each such expression in source order (instantiations of generic functions `f[T](…)` are not
+//     index expressions and are left out). C07/Accounted.lean pins this table: each function is
+//     either modelled with checked operations (expression list pinned verbatim) or on an explicit
+//     exclusion list with its reason, so a NEW hand-written parser breaks a proof obligation.
 //  3. the method table of app.methodInt's fast path and the error → status table of
 //     app.serverErrorHandler (order of the switch cases matters, it is kept).
 package main
 
 import (
+	"bytes"
 	"flag"
 	"fmt"
 	"go/ast"
 	"go/parser"
+	"go/printer"
 	"go/token"
 	"os"
 	"path/filepath"
@@ -405,6 +413,78 @@ func errorTable(app, errs *ast.File, statusConst map[string]int) (rows [][2]stri
 	return
 }
 
+// indexSites: per function the index / slice expressions, rendered by go/printer
+type site struct {
+	file, fn string
+	exprs    []string
+}
+
+func collectIndexSites(repo string, files []string) []site {
+	// names of generic functions of the package: `name[T](…)` is an instantiation, not an index
+	generic := map[string]bool{}
+	parsed := map[string]*ast.File{}
+	fsets := map[string]*token.FileSet{}
+	for _, fn := range files {
+		fset := token.NewFileSet()
+		f, err := parser.ParseFile(fset, filepath.Join(repo, fn), nil, 0)
+		if err != nil {
+			die("%v", err)
+		}
+		parsed[fn], fsets[fn] = f, fset
+	}
+	all, _ := filepath.Glob(filepath.Join(repo, "*.go"))
+	for _, path := range all {
+		if strings.HasSuffix(path, "_test.go") {
+			continue
+		}
+		f, err := parser.ParseFile(token.NewFileSet(), path, nil, 0)
+		if err != nil {
+			continue
+		}
+		for _, d := range f.Decls {
+			if fd, ok := d.(*ast.FuncDecl); ok && fd.Type.TypeParams != nil {
+				generic[fd.Name.Name] = true
+			}
+		}
+	}
+	var out []site
+	for _, fn := range files {
+		f, fset := parsed[fn], fsets[fn]
+		for _, d := range f.Decls {
+			fd, ok := d.(*ast.FuncDecl)
+			if !ok || fd.Body == nil {
+				continue
+			}
+			name := fd.Name.Name
+			if fd.Recv != nil && len(fd.Recv.List) == 1 {
+				name = strings.TrimPrefix(chain(fd.Recv.List[0].Type), "Default") + "." + name
+			}
+			var exprs []string
+			render := func(n ast.Node) string {
+				var b bytes.Buffer
+				_ = printer.Fprint(&b, fset, n)
+				return strings.Join(strings.Fields(b.String()), " ")
+			}
+			ast.Inspect(fd.Body, func(n ast.Node) bool {
+				switch v := n.(type) {
+				case *ast.IndexExpr:
+					if id, ok := v.X.(*ast.Ident); ok && generic[id.Name] {
+						return true
+					}
+					exprs = append(exprs, render(v))
+				case *ast.SliceExpr:
+					exprs = append(exprs, render(v))
+				}
+				return true
+			})
+			if len(exprs) > 0 {
+				out = append(out, site{fn, name, exprs})
+			}
+		}
+	}
+	return out
+}
+
 func main() {
 	repo := flag.String("repo", "/repo", "repository root")
 	out := flag.String("out", "lean/FiberModel/Generated/C07Facts.lean", "output file")
@@ -499,6 +579,31 @@ func main() {
 			sep = ""
 		}
 		fmt.Fprintf(&b, "  (%q, %q)%s\n", r[0], r[1], sep)
+	}
+	b.WriteString("]\n\n")
+	siteFiles := []string{"helpers.go", "ctx.go", "path.go"}
+	bf, _ := filepath.Glob(filepath.Join(*repo, "binder", "*.go"))
+	sort.Strings(bf)
+	for _, f := range bf {
+		if !strings.HasSuffix(f, "_test.go") {
+			siteFiles = append(siteFiles, "binder/"+filepath.Base(f))
+		}
+	}
+	sites := collectIndexSites(*repo, siteFiles)
+	if len(sites) == 0 {
+		die("no index sites found")
+	}
+	b.WriteString("/-- every function of helpers.go, ctx.go, path.go, binder/*.go with an index or slice expression:\n    (file, function, the expressions in source order) -/\ndef indexSites : List (String × String × List String) := [\n")
+	for i, st := range sites {
+		sep := ","
+		if i == len(sites)-1 {
+			sep = ""
+		}
+		qs := make([]string, len(st.exprs))
+		for j, e := range st.exprs {
+			qs[j] = strconv.Quote(e)
+		}
+		fmt.Fprintf(&b, "  (%q, %q, [%s])%s\n", st.file, st.fn, strings.Join(qs, ", "), sep)
 	}
 	b.WriteString("]\n\nend C07.Facts\n")
 	if err := os.WriteFile(*out, []byte(b.String()), 0o644); err != nil {
